@@ -49,7 +49,7 @@ impl Property for C14 {
          oracle = two-map model (id -> constraint, id -> removal reason) + reference evaluator; invariant checked after every step; non-trivial = history with a successful relax followed by a restore of the same id and at least one failing operation; distinct = sha256(instance, history)"
     }
     fn required_labels(&self) -> Vec<String> {
-        ["restore-ok", "relax-ok", "relax-unknown", "relax-removed-id", "restore-active-id", "restore-unknown", "flag-changes", "eval-step", "relax-then-restore-same-id", "eval-samples-step", "placed-inside-tolerance"].iter().map(|s| s.to_string()).collect()
+        ["restore-ok", "relax-ok", "relax-unknown", "relax-removed-id", "restore-active-id", "restore-unknown", "flag-changes", "eval-step", "relax-then-restore-same-id", "eval-samples-step", "placed-inside-tolerance", "reason-ends-with-newline"].iter().map(|s| s.to_string()).collect()
     }
     fn cases(&self, tier: Tier) -> usize {
         match tier {
@@ -140,7 +140,15 @@ impl Property for C14 {
                             sim_active.retain(|x| *x != id);
                             sim_removed.push(id);
                         }
-                        Op::Relax(id, format!("reason{}", b % 3), p)
+                        {
+                            // the reason is free text and is recorded as given
+                            const REASONS: [&str; 10] = ["reason0", "reason1", "reason2", "", " leading blank", "ends with a newline\n", "ends with crlf\r\n", "two\nlines", "trailing blank ", "理由"];
+                            let r = REASONS[(*b as usize >> 2) % REASONS.len()];
+                            if r.ends_with('\n') {
+                                ctx.label("reason-ends-with-newline");
+                            }
+                            Op::Relax(id, r.to_string(), p)
+                        }
                     }
                     1 => {
                         let id = if b % 4 != 0 { pick(&sim_removed, *a).unwrap_or(any) } else { any };
